@@ -13,6 +13,10 @@ import numpy as np
 from .. import geom
 from ..common import rng
 
+TECHNIQUE = 'runtime differential monitor: independent longdouble forward model vs C/Python/numba routes; OpenMP thread-count differential'
+LEVEL_TEXT = 'Exploration: every route that computes lab coordinates/angles/g-vectors is executed on generated parameter classes (8 flips x 2^11 on/off switches; pairwise+random in quick, all 16384 classes in thorough) and compared value-by-value with an independent reference model; OpenMP loops re-run at 1..64 threads for bit-equality; f2py copy paths (float32/strided) included. Holds on the executions listed in the evidence, not for all inputs.'
+LEVEL_NOTE = 'Trusts the harness model in vlib/geom.py, numpy longdouble arithmetic, and tolerances derived from conditioning (stated in evidence.assumptions).'
+
 RULE = ("parameter classes = 8 detector flips x 11 on/off switches (tilt_x, tilt_y, tilt_z, "
         "wedge, chi, omegasign<0, t_x, t_y, t_z, y_size<0, z_size<0); a case is one parameter "
         "set with random magnitudes + a peak list (uniform, corners, centre pixel, omega "
